@@ -282,6 +282,14 @@ func c07Run(j *rt.Job, seed uint64, r *rt.Rec) {
 					return
 				}
 			}
+			if j.Int("batch")%8 == 0 {
+				// a nil message and messages around 2^16 bytes
+				for _, m := range [][]byte{nil, rng.Bytes(65535), rng.Bytes(65536), rng.Bytes(65537)} {
+					if !c07Pair(r, lib, ref, s, m, "nil / 64 KiB message") {
+						return
+					}
+				}
+			}
 		}
 	case "corpus":
 		lines := readCorpus()
